@@ -360,6 +360,7 @@ func c18PushBridge(res *Result, rng *rand.Rand) {
 		k := 2 + rng.Intn(3)
 		type one struct {
 			tag, id, body string
+			extra         string // a method-less member posted alongside ("" = none)
 			w             *httptest.ResponseRecorder
 		}
 		batch := make([]*one, k)
@@ -368,6 +369,12 @@ func c18PushBridge(res *Result, rng *rand.Rand) {
 			who++
 			o := &one{tag: fmt.Sprintf("pb%d", who), id: fmt.Sprint(1 + rng.Intn(3))}
 			o.body = fmt.Sprintf(`{"jsonrpc":"2.0","id":%s,"method":"p","params":["%s","%d"]}`, o.id, o.tag, rng.Intn(4))
+			if rng.Intn(4) == 0 {
+				// next to a member that has an id but no method at all: not a reply, so it must be
+				// answered (with an error), and the call beside it as well
+				o.extra = fmt.Sprintf(`{"jsonrpc":"2.0","id":"x%d"}`, who)
+				o.body = "[" + o.extra + "," + o.body + "]"
+			}
 			batch[i] = o
 			bodies = append(bodies, o.body)
 		}
@@ -407,11 +414,21 @@ func c18PushBridge(res *Result, rng *rand.Rand) {
 				res.Violatef("an HTTP request to the bridge was never answered", in, "%s: no response after 5s", o.body)
 				continue
 			}
-			var rsp struct {
+			type entry struct {
 				ID     json.RawMessage `json:"id"`
 				Result string          `json:"result"`
+				Error  json.RawMessage `json:"error"`
 			}
-			if o.w.Code != 200 || json.Unmarshal(o.w.Body.Bytes(), &rsp) != nil || string(rsp.ID) != o.id || rsp.Result != o.tag {
+			var rsp entry
+			bodyOK := json.Unmarshal(o.w.Body.Bytes(), &rsp) == nil
+			if o.extra != "" {
+				var both []entry
+				bodyOK = json.Unmarshal(o.w.Body.Bytes(), &both) == nil && len(both) == 2 && len(both[0].Error) > 0 && strings.HasPrefix(string(both[0].ID), `"x`)
+				if bodyOK {
+					rsp = both[1]
+				}
+			}
+			if o.w.Code != 200 || !bodyOK || string(rsp.ID) != o.id || rsp.Result != o.tag {
 				ok = false
 				res.Violatef("bridge reply does not carry exactly the caller's own ids", in, "%s answered with status %d body %q", o.body, o.w.Code, o.w.Body.String())
 			}
